@@ -4,9 +4,10 @@ stage's model (the very `Stage` data of Golem/Model/Stages.lean the theorems are
 that it admits the implementation's observation sequence.
 -/
 import Golem.Model.Stages
+import Golem.Model.StageCfg
 import Golem.Driver.PoolRun
 namespace Golem.Driver.Lockstep
-open Golem.Go Golem.Go.Pool Golem.Model Golem.Driver Golem.Driver.PoolRun
+open Golem.Go Golem.Go.Pool Golem.Model Golem.Model.DSL Golem.Driver Golem.Driver.PoolRun
 
 /-! user-function family — mirrors go/harness/lockstep (fMap, gFMap, pred, combine) -/
 def modulus : Int := 1000003
@@ -64,8 +65,8 @@ def rSum : Render Unit (Int ⊕ Int) := { showS := fun _ => "", showV := fun _ v
 def rInt {σ : Type} (f : σ → String) : Render σ Int := { showS := f, showV := fun _ v => s!"v{v}" }
 def rUnit {σ : Type} (f : σ → String) : Render σ Unit := { showS := f, showV := fun _ _ => "u" }
 
-/-- capacities of the value / error outputs as `make` computes them -/
-def exxCap (c : Conf) : Nat := if c.mode == "try" then c.cap else 1
+/-! pools come from `Model/StageCfg.lean` (hand-written configurations, proved equal to the ones regenerated
+from the Go source by the `*_cfg_gen` theorems of Props/Stage) -/
 
 def run (line : String) : String :=
   match line.splitOn " || " with
@@ -79,31 +80,32 @@ def run (line : String) : String :=
       let g := c.gated
       if c.stage == "Join" then
         let caps := fun j => c.caps.getD j c.cap
-        check { st := copyS, R := rInt (fun _ => ""), p0 := joinPool c.k caps, nIn := c.k, nOut := 1, closerProc := true, hasFn := false } moves obs
+        check { st := copyS, R := rInt (fun _ => ""), p0 := StageCfg.pipeJoin.pool () caps 0 c.k id false, nIn := c.k, nOut := 1, closerProc := true, hasFn := false } moves obs
       else if fork then
-        let oc : Nat → Nat := fun _ => c.par
+        let ic : Nat → Nat := fun _ => c.cap
+        let ec := StageCfg.errch (errMode c)
         match c.stage with
-        | "Map" => check { st := mapS (errMode c) (fE c), R := rSum, p0 := forkPool () c.par c.cap oc [0, 1] g, nIn := 1, nOut := 2, closerProc := true, hasFn := true } moves obs
-        | "FMap" => check { st := fmapS (errMode c) (gE c), R := rSum, p0 := forkPool () c.par c.cap oc [0, 1] g, nIn := 1, nOut := 2, closerProc := true, hasFn := true } moves obs
-        | "Filter" => check { st := filterS (pE c), R := rInt (fun _ => ""), p0 := forkPool () c.par c.cap oc [0] g, nIn := 1, nOut := 1, closerProc := true, hasFn := true } moves obs
-        | "Partition" => check { st := partitionS (pE c), R := rInt (fun _ => ""), p0 := forkPool () c.par c.cap oc [0, 1] g, nIn := 1, nOut := 2, closerProc := true, hasFn := true } moves obs
-        | "ForEach" => check { st := forEachS, R := rUnit (fun (_ : List Int) => ""), p0 := forkPool [] c.par c.cap (fun _ => 0) [0] g, nIn := 1, nOut := 1, closerProc := true, hasFn := true } moves obs
-        | "Void" => check { st := voidS, R := rUnit (fun _ => ""), p0 := forkPool () c.par c.cap (fun _ => 0) [0] g, nIn := 1, nOut := 1, closerProc := true, hasFn := false } moves obs
+        | "Map" => check { st := mapS (errMode c) (fE c), R := rSum, p0 := StageCfg.forkMap.pool () ic c.par 0 ec g, nIn := 1, nOut := 2, closerProc := true, hasFn := true } moves obs
+        | "FMap" => check { st := fmapS (errMode c) (gE c), R := rSum, p0 := StageCfg.forkFMap.pool () ic c.par 0 ec g, nIn := 1, nOut := 2, closerProc := true, hasFn := true } moves obs
+        | "Filter" => check { st := filterS (pE c), R := rInt (fun _ => ""), p0 := StageCfg.forkFilter.pool () ic c.par 0 ec g, nIn := 1, nOut := 1, closerProc := true, hasFn := true } moves obs
+        | "Partition" => check { st := partitionS (pE c), R := rInt (fun _ => ""), p0 := StageCfg.forkPartition.pool () ic c.par 0 ec g, nIn := 1, nOut := 2, closerProc := true, hasFn := true } moves obs
+        | "ForEach" => check { st := forEachS, R := rUnit (fun (_ : List Int) => ""), p0 := StageCfg.forkForEach.pool [] ic c.par 0 ec g, nIn := 1, nOut := 1, closerProc := true, hasFn := true } moves obs
+        | "Void" => check { st := voidS, R := rUnit (fun _ => ""), p0 := StageCfg.forkVoid.pool () ic c.par 0 ec g, nIn := 1, nOut := 1, closerProc := true, hasFn := false } moves obs
         | s => s!"bad-op unknown fork stage {s}"
       else
-        let oc : Nat → Nat := fun k => if k == 0 then c.cap else exxCap c
-        let cc : Nat → Nat := fun _ => c.cap
+        let ic : Nat → Nat := fun _ => c.cap
+        let ec := StageCfg.errch (errMode c)
         match c.stage with
-        | "Map" => check { st := mapS (errMode c) (fE c), R := rSum, p0 := pipePool () c.cap oc [1, 0] g, nIn := 1, nOut := 2, closerProc := false, hasFn := true } moves obs
-        | "FMap" => check { st := fmapS (errMode c) (gE c), R := rSum, p0 := pipePool () c.cap oc [1, 0] g, nIn := 1, nOut := 2, closerProc := false, hasFn := true } moves obs
-        | "StdErrMap" => check { st := mapS (errMode c) (fE c), R := rSum, p0 := pipePool () c.cap oc [1, 0] g, nIn := 1, nOut := 1, closerProc := false, hasFn := true, drain := [1] } moves obs
-        | "Filter" => check { st := filterS (pE c), R := rInt (fun _ => ""), p0 := pipePool () c.cap cc [0] g, nIn := 1, nOut := 1, closerProc := false, hasFn := true } moves obs
-        | "Partition" => check { st := partitionS (pE c), R := rInt (fun _ => ""), p0 := pipePool () c.cap cc [0, 1] g, nIn := 1, nOut := 2, closerProc := false, hasFn := true } moves obs
-        | "TakeWhile" => check { st := takeWhileS (pE c), R := rInt (fun _ => ""), p0 := pipePool () c.cap cc [0] g, nIn := 1, nOut := 1, closerProc := false, hasFn := true } moves obs
+        | "Map" => check { st := mapS (errMode c) (fE c), R := rSum, p0 := StageCfg.pipeMap.pool () ic 0 0 ec g, nIn := 1, nOut := 2, closerProc := false, hasFn := true } moves obs
+        | "FMap" => check { st := fmapS (errMode c) (gE c), R := rSum, p0 := StageCfg.pipeFMap.pool () ic 0 0 ec g, nIn := 1, nOut := 2, closerProc := false, hasFn := true } moves obs
+        | "StdErrMap" => check { st := mapS (errMode c) (fE c), R := rSum, p0 := StageCfg.pipeMap.pool () ic 0 0 ec g, nIn := 1, nOut := 1, closerProc := false, hasFn := true, drain := [1] } moves obs
+        | "Filter" => check { st := filterS (pE c), R := rInt (fun _ => ""), p0 := StageCfg.pipeFilter.pool () ic 0 0 ec g, nIn := 1, nOut := 1, closerProc := false, hasFn := true } moves obs
+        | "Partition" => check { st := partitionS (pE c), R := rInt (fun _ => ""), p0 := StageCfg.pipePartition.pool () ic 0 0 ec g, nIn := 1, nOut := 2, closerProc := false, hasFn := true } moves obs
+        | "TakeWhile" => check { st := takeWhileS (pE c), R := rInt (fun _ => ""), p0 := StageCfg.pipeTakeWhile.pool () ic 0 0 ec g, nIn := 1, nOut := 1, closerProc := false, hasFn := true } moves obs
         | "Take" => check { st := takeS, R := rInt (fun (n : Int) => toString n), p0 := takePool c.n c.cap g, nIn := 1, nOut := 1, closerProc := false, hasFn := false } moves obs
-        | "ForEach" => check { st := forEachS, R := rUnit (fun (l : List Int) => showInts l), p0 := pipePool [] c.cap (fun _ => 0) [0] g, nIn := 1, nOut := 1, closerProc := false, hasFn := true, visits := id } moves obs
-        | "Void" => check { st := voidS, R := rUnit (fun _ => ""), p0 := pipePool () c.cap (fun _ => 0) [0] g, nIn := 1, nOut := 1, closerProc := false, hasFn := false } moves obs
-        | "Fold" => check { st := foldS combine, R := rInt (fun (a : Int) => toString a), p0 := pipePool foldEmpty c.cap (fun _ => 1) [0] g, nIn := 1, nOut := 1, closerProc := false, hasFn := false } moves obs
+        | "ForEach" => check { st := forEachS, R := rUnit (fun (l : List Int) => showInts l), p0 := StageCfg.pipeForEach.pool [] ic 0 0 ec g, nIn := 1, nOut := 1, closerProc := false, hasFn := true, visits := id } moves obs
+        | "Void" => check { st := voidS, R := rUnit (fun _ => ""), p0 := StageCfg.pipeVoid.pool () ic 0 0 ec g, nIn := 1, nOut := 1, closerProc := false, hasFn := false } moves obs
+        | "Fold" => check { st := foldS combine, R := rInt (fun (a : Int) => toString a), p0 := StageCfg.pipeFold.pool foldEmpty ic 0 0 ec g, nIn := 1, nOut := 1, closerProc := false, hasFn := false } moves obs
         | s => s!"bad-op unknown pipe stage {s}"
     | _ => "bad-op"
   | _ => "bad-op"
